@@ -169,6 +169,30 @@ func startedWrapper(c *Ctx, v ssa.Value) (*wrapperInfo, string) {
 	return &wrapperInfo{T: n, Field: field}, ""
 }
 
+func stripNot(v ssa.Value) ssa.Value {
+	for {
+		if u, ok := v.(*ssa.UnOp); ok && u.Op == token.NOT {
+			v = u.X
+			continue
+		}
+		return v
+	}
+}
+
+// flagLoadOf: v is a load (or trivial getter) of the started flag of wrapper wi.
+func flagLoadOf(v ssa.Value, wi *wrapperInfo) bool {
+	var o types.Type
+	var f *types.Var
+	if call, isCall := v.(*ssa.Call); isCall {
+		o, f, _ = fieldOf(call)
+	} else if ld, ok := v.(*ssa.UnOp); ok && ld.Op == token.MUL {
+		if fa, ok := ld.X.(*ssa.FieldAddr); ok {
+			o, f, _ = fieldOf(fa)
+		}
+	}
+	return f != nil && f == wi.Field && types.Identical(deref(o), wi.T)
+}
+
 // gatePolarity: if cond tests the started flag of wrapper wi, returns (isGate, startedSuccIndex).
 func gatePolarity(ifi *ssa.If, wi *wrapperInfo) (bool, int) {
 	v := ifi.Cond
@@ -318,6 +342,38 @@ func checkC02(c *Ctx, r *Report) {
 							work = append(work, node{n.b.Succs[1-sidx], 0, 2})
 						}
 						continue
+					}
+					// the flag tested inside a named predicate (`skippedWithoutContact(err, tracked)`): an edge on which the
+					// predicate's answer implies started / not started carries that state
+					if _, isCall := stripNot(ifi.Cond).(*ssa.Call); isCall {
+						handled := false
+						for si := 0; si < 2; si++ {
+							implied := 0
+							for _, cf := range normFacts([]condFact{{ifi.Cond, si == 0, ifi}}) {
+								if flagLoadOf(cf.Cond, wi) {
+									if cf.True {
+										implied = 1
+									} else {
+										implied = 2
+									}
+								}
+							}
+							if implied != 0 {
+								handled = true
+							}
+							ns := st
+							if implied != 0 {
+								if (implied == 1 && st == 2) || (implied == 2 && st == 1) {
+									continue // contradicts what is known on this path
+								}
+								ns = implied
+							}
+							work = append(work, node{n.b.Succs[si], 0, ns})
+						}
+						if handled {
+							continue
+						}
+						// nothing implied: fall through to the plain successor handling (pushes duplicates are filtered by seen)
 					}
 				}
 				for _, s := range n.b.Succs {
